@@ -147,7 +147,7 @@ def coq_run(ctx, name, body, timeout=900):
     path = os.path.join(ctx.work, name + ".v")
     with open(path, "w") as f:
         f.write(body)
-    rc, out = sh(["timeout", str(timeout), "coqc", "-Q", os.path.join(COQ, "theories"), "XO", "-Q", ctx.work, "Gen", path],
+    rc, out = sh(["sh", "-c", "ulimit -s unlimited 2>/dev/null; exec timeout %d coqc -Q %s XO %s" % (timeout, os.path.join(COQ, "theories"), path)],
                  cwd=ctx.work, timeout=timeout + 30)
     return rc, out
 
@@ -164,7 +164,7 @@ def coq_eval_many(ctx, files, timeout=900):
             path = os.path.join(ctx.work, name + ".v")
             with open(path, "w") as f:
                 f.write(body)
-            p = subprocess.Popen(["timeout", str(timeout), "coqc", "-Q", os.path.join(COQ, "theories"), "XO", path],
+            p = subprocess.Popen(["sh", "-c", "ulimit -s unlimited 2>/dev/null; exec timeout %d coqc -Q %s XO %s" % (timeout, os.path.join(COQ, "theories"), path)],
                                  cwd=ctx.work, stdout=subprocess.PIPE, stderr=subprocess.STDOUT, text=True)
             running.append((name, p))
         name, p = running.pop(0)
